@@ -33,6 +33,17 @@ pub enum Op {
     Tick,
     /// change the stored finish behaviour (0..5)
     WithFinish(u8),
+    /// calls that are not part of the history that defines position/length: they must not change them
+    ResetEta,
+    ResetElapsed,
+    SetMessage,
+    SetPrefix,
+    Println,
+    Suspend,
+    SetStyle,
+    SetTabWidth(u8),
+    ForceDraw,
+    CloneAndDrop,
 }
 
 #[derive(Debug, Clone, Serialize, Deserialize)]
@@ -72,6 +83,10 @@ fn op_strategy() -> BoxedStrategy<Op> {
         1 => Just(Op::UnsetLen),
         1 => Just(Op::Tick),
         1 => (0u8..5).prop_map(Op::WithFinish),
+        3 => prop_oneof![
+            Just(Op::ResetEta), Just(Op::ResetElapsed), Just(Op::SetMessage), Just(Op::SetPrefix), Just(Op::Println), Just(Op::Suspend),
+            Just(Op::SetStyle), (0u8..12).prop_map(Op::SetTabWidth), Just(Op::ForceDraw), Just(Op::CloneAndDrop)
+        ],
     ]
     .boxed()
 }
@@ -130,6 +145,16 @@ fn run_hist(c: &HistCase) -> CaseResult {
             Op::UnsetLen => pb.unset_length(),
             Op::Tick => pb.tick(),
             Op::WithFinish(_) => {}
+            Op::ResetEta => pb.reset_eta(),
+            Op::ResetElapsed => pb.reset_elapsed(),
+            Op::SetMessage => pb.set_message("m\tn"),
+            Op::SetPrefix => pb.set_prefix("p"),
+            Op::Println => pb.println("log"),
+            Op::Suspend => pb.suspend(|| ()),
+            Op::SetStyle => pb.set_style(pb.style()),
+            Op::SetTabWidth(w) => pb.set_tab_width(*w as usize),
+            Op::ForceDraw => pb.force_draw(),
+            Op::CloneAndDrop => drop(pb.clone()),
         });
         if let Op::WithFinish(k) = op {
             pb = pb.with_finish(finish_of(*k));
@@ -156,6 +181,7 @@ fn run_hist(c: &HistCase) -> CaseResult {
                 }
             }
             Op::Abandon | Op::AbandonWithMessage | Op::Tick | Op::WithFinish(_) => {}
+            Op::ResetEta | Op::ResetElapsed | Op::SetMessage | Op::SetPrefix | Op::Println | Op::Suspend | Op::SetStyle | Op::SetTabWidth(_) | Op::ForceDraw | Op::CloneAndDrop => {}
             Op::SetLen(l) | Op::UpdateSetLen(l) => len = Some(*l),
             Op::IncLen(d) => len = len.map(|l| l.saturating_add(*d)),
             Op::DecLen(d) => len = len.map(|l| l.saturating_sub(*d)),
@@ -200,6 +226,7 @@ fn run_hist(c: &HistCase) -> CaseResult {
     v.label_if(c.ops.iter().any(|o| matches!(o, Op::Finish | Op::FinishWithMessage | Op::FinishAndClear | Op::FinishUsingStyle)), "finish");
     v.label_if(c.ops.iter().any(|o| matches!(o, Op::IncLen(_) | Op::DecLen(_))), "len_saturating");
     v.label_if(c.hidden, "hidden_target");
+    v.label_if(c.ops.iter().any(|o| matches!(o, Op::ResetEta | Op::ResetElapsed)), "unrelated_calls_interleaved");
     Ok(v)
 }
 
@@ -330,7 +357,7 @@ pub fn property() -> Property {
                 cases: |t| t.pick(6_000, 300_000),
                 run: run_hist,
                 signature: no_signature,
-                essential: &["wrapped_u64_boundary", "reset", "finish", "len_saturating", "hidden_target"],
+                essential: &["wrapped_u64_boundary", "reset", "finish", "len_saturating", "hidden_target", "unrelated_calls_interleaved"],
                 workers: w,
                 decode: None,
             }),
